@@ -203,11 +203,6 @@ package js_ast
 // R(e) below is the classifier itself, used as a deterministic function of the (unchanged) AST:
 // the contract says R is closed downwards, so no operand position can be skipped.
 // Leaf classifications delegated to other helpers are uninterpreted here (trusted, `ensures true`).
-//@ func CanChangeStrictToLoose
-//@   trusted
-//@   opt heappure
-//@   modifies nothing
-//@   ensures true
 //@ func IsPrimitiveLiteral
 //@   trusted
 //@   opt heappure
@@ -411,6 +406,17 @@ package js_ast
 //@   ensures tagged-template-unknown: is(expr, *ETemplate) && expr.(*ETemplate).TagOrNil.Data != nil ==> result == PrimitiveUnknown
 //@   ensures unknown-kinds: result != PrimitiveUnknown ==> is(expr, *EAnnotation) || is(expr, *EInlinedEnum) || is(expr, *ENull) || is(expr, *EUndefined) ||
 //@       is(expr, *EBoolean) || is(expr, *ENumber) || is(expr, *EString) || is(expr, *EBigInt) || is(expr, *ETemplate) || is(expr, *EIf) || is(expr, *EUnary) || is(expr, *EBinary)
+
+// C03: `a === b` may be weakened to `a == b` only when both operands always have the SAME single primitive
+// type (ECMA-262 7.2.14 IsLooselyEqual step 1: same Type => IsStrictlyEqual). "Mixed" is number-or-bigint, and
+// 1n == 1 is true while 1n === 1 is false, so Mixed operands must keep the strict operator.
+//@ func CanChangeStrictToLoose
+//@   arith int
+//@   prop C03 C04
+//@   opt heappure
+//@   opt scenario strict_to_loose_mixed_numeric
+//@   modifies nothing
+//@   ensures same-single-type: result ==> kpt(a) == kpt(b) && kpt(a) != PrimitiveUnknown && kpt(a) != PrimitiveMixed
 
 // ----------------------------------------------------------------------------------------------
 // C03: compile-time ToBoolean (ECMA-262 7.1.2) used to fold conditions, `!`, `&&`/`||` and if-statements.
